@@ -770,6 +770,38 @@ func c15Queries(target string) [][2]string {
 		{"after-parse-group", "{$.input.ok,$.input.name.ParseYAML().a.b.Equal($." + target + ".name)}"},
 		{"at-root", "@." + target + ".name"}, // a top-level `@` path starts at the root like `$`
 		{"at-root-group", "{OR,@." + target + ".ok,$.input.ok}"},
+		// the root field read in an argument that is not the last one (a permitted path or a literal follows it)
+		{"arg-first-of-two", "$.input.name.AnyOf($." + target + ".name,$.input.name)"},
+		{"arg-middle", "$.input.name.AnyOf(\"x\",$." + target + ".name,$.input.name)"},
+		{"arg-before-literal", "$.input.name.AnyOf($." + target + ".name,\"x\")"},
+		{"filter-arg-first-of-two", "$.input.items[@.v.AnyOf($." + target + ".name,$.input.name)]"},
+		{"group-arg-first-of-two", "{AND,$.input.ok,{OR,$.input.name.AnyOf($." + target + ".name,$.input.name)}}"},
+		{"arg-in-arg", "$.input.name.Equal($.input.name.TrimLeft(0).AnyOf($." + target + ".name,$.input.name).Not().AsJSON())"},
+	}
+}
+
+// c15RootOffers: the field lists offered by every `$` part of a result tree (paths in filters, groups and arguments included)
+func c15RootOffers(tree any, out *[][]string) {
+	switch t := tree.(type) {
+	case map[string]any:
+		if t["partType"] == "PathIdent" && t["string"] == "$" {
+			if av, ok := t["available"].(map[string]any); ok {
+				if fs, ok := av["fields"].([]any); ok {
+					var l []string
+					for _, f := range fs {
+						l = append(l, fmt.Sprint(f))
+					}
+					*out = append(*out, l)
+				}
+			}
+		}
+		for _, v := range t {
+			c15RootOffers(v, out)
+		}
+	case []any:
+		for _, v := range t {
+			c15RootOffers(v, out)
+		}
 	}
 }
 
@@ -803,7 +835,7 @@ func (c *Ctx) c15Check(root *CTy, txt string, all []string, cp, target, cls stri
 			switch pos {
 			case "", "mark", "at-root":
 				expect = "ACC String Single"
-			case "filter":
+			case "filter", "filter-arg-first-of-two":
 				expect = "ACC Object Array"
 			default:
 				expect = "ACC Boolean Single"
@@ -817,6 +849,28 @@ func (c *Ctx) c15Check(root *CTy, txt string, all []string, cp, target, cls stri
 			pcls += "/" + pos
 		}
 		o := c.cueDo(cueCase{S: root, P: []string{target, "name"}, CP: cp, Dom: !unspec, Pos: pos, Q: q, Txt: txt}, pcls, expect, unspec)
+		// every `$` part of the result (in filters, groups and arguments too) offers what the first one offers: the non-blocked fields
+		if pos != "" && !errored && !unspec && o.JSON != "" {
+			var tree any
+			var offers [][]string
+			if json.Unmarshal([]byte(o.JSON), &tree) == nil {
+				c15RootOffers(tree, &offers)
+			}
+			for _, l := range offers {
+				offered := map[string]bool{}
+				for _, f := range l {
+					offered[f] = true
+				}
+				for _, f := range all {
+					blocked := !allowed[f] || (f == cp && cp != "input")
+					if blocked == offered[f] {
+						c.addViolation(Violation{Kind: "oracle", Query: q, QueryHex: hx(q), Expected: fmt.Sprintf("every root part offers %s: %v", f, !blocked), Got: strings.Join(l, ","),
+							Why: "a `$` part below the top of the query offers other root fields than the permitted ones", Cls: pcls, Key: "oracle:offered-below-top:" + pos, Extra: map[string]any{"schema": txt, "current_step": cp}})
+						break
+					}
+				}
+			}
+		}
 		// the fields offered at the root must leave out exactly the blocked ones
 		if pos == "" && !errored && o.Fields != nil && !unspec {
 			offered := map[string]bool{}
